@@ -269,6 +269,20 @@ func (in *Inst) Process(e dag.Event) (err error) {
 	return err
 }
 
+// ProcessNoStore submits an event without touching the application's event storage (a resubmission of an event the
+// application already holds: the stored original stays what GetEvent returns).
+func (in *Inst) ProcessNoStore(e dag.Event) (err error) {
+	defer func() {
+		if r := recover(); r != nil {
+			err = fmt.Errorf("CRIT/panic: %v", r)
+			if in.Crit == nil {
+				in.Crit = err
+			}
+		}
+	}()
+	return in.L.Process(e)
+}
+
 func (in *Inst) Build(e dag.MutableEvent) (err error) {
 	defer func() {
 		if r := recover(); r != nil {
